@@ -43,6 +43,9 @@ def maskable_owners(spec):
     return seen
 
 
+THROUGH_KINDS = ("leaf",)  # (user-defined leaves: their code only ever runs inside their own evaluate(), and they are never copied)
+
+
 def owner_of_callable(spec, kind, name):
     """Id of the node a stub callable belongs to (None if unknown)."""
     for n in spec["nodes"]:
@@ -51,6 +54,8 @@ def owner_of_callable(spec, kind, name):
             base = name.split("#")[0]
             if n["name"] == base or any("fn" in impl and impl["fn"] == base for _, impl in n.get("overloads", [])):
                 return n["id"]
+        if kind == "leaf" and k == "opt" and name == f"leaf_{n['id']}":
+            return n["id"]
         if kind == "pred" and k == "case" and name.startswith(f"pred_{n['id']}_"):
             return n["id"]
         if kind == "bindfn" and k == "bind" and name == f"bind_{n['id']}":
@@ -96,9 +101,11 @@ class C12(HistoryProperty):
     def gen_case(self, rng, tier):
         cfg = gen.swarm_cfg(rng, off=("shape_change",), on=("dsclass", "fapp"))
         cfg["stateful_callables"] = rng.random() < 0.5  # callback OBJECTS that a failed call leaves dirty
+        cfg["user_evaluatables"] = rng.random() < 0.4  # user-defined Evaluatable leaves (also with methods inherited from a plain mixin)
         if cfg["stateful_callables"]:
             cfg["callbacks"] = True
         spec = gen.prune(gen.gen_spec(rng, cfg))
+        spec["leaf_calls"] = True
         for n in spec["nodes"]:
             if n["k"] == "dataset" and n.get("cache", "default") == "default":
                 n["cache"] = "recording"  # the real MemoryCache code path, with its calls logged
@@ -269,6 +276,14 @@ class C12(HistoryProperty):
                     surfaced_all = False
                     continue
                 res.bump("fault_surfaced")
+                if len(fired_here) == 1 and fired_here[0][1] in THROUGH_KINDS:
+                    # "leads through the nested objects": the object whose own code raised is one of them
+                    owner = owner_of_callable(spec, fired_here[0][1], fired_here[0][2])
+                    if owner is not None and not any(getattr(x, "source", None) is wf.prog.obj[owner] for x in cause_chain(out.exc)):
+                        res.violate("cause-chain-skips-the-failing-object", op_index=i, node=op["node"], o=op["o"], failing=owner, fault=list(fired_here[0]),
+                                    chain=[f"{type(x).__name__}:{str(getattr(x, 'source', ''))[:60]}" for x in cause_chain(out.exc)], faults=desc)
+                        return
+                    res.bump("chains_checked_for_the_failing_object")
                 failed_ops.append(i)
                 if not surfaced_all:
                     # an EARLIER fault of this run was masked: whatever its fallback path stored (legitimately) now shapes
